@@ -34,9 +34,9 @@ def hist_of(state):
     return streams, hist
 
 
-def scen(run, name, streams, hist, sync, rotate_at=0, truncate=False, recycle=0, maint="", rotate_every=False, remove_after="", nowatch=False, fillers=0, lz4=False, cap=0):
+def scen(run, name, streams, hist, sync, rotate_at=0, truncate=False, recycle=0, maint="", rotate_every=False, remove_after="", nowatch=False, fillers=0, lz4=False, cap=0, symlink=False):
     return dict(run=run, name=name, sync=sync, streams=streams, hist=hist, rotate_at=rotate_at, truncate=truncate, recycle=recycle, maint=maint,
-                rotate_every=rotate_every, remove_after=remove_after, nowatch=nowatch, fillers=fillers, lz4=lz4, cap=cap)
+                rotate_every=rotate_every, remove_after=remove_after, nowatch=nowatch, fillers=fillers, lz4=lz4, cap=cap, symlink=symlink)
 
 
 def perform(ctx, binary, scs, tag="c03"):
@@ -298,6 +298,22 @@ def run(ctx):
         hist += [["sleep", 200], ["act", 1], ["deliver", 1], ["commit", 1], ["sleep", 400], ["open", 0]]
         # writes are not watched (file.d's default): the pass itself is what notices the truncation
         scs.append(scen(k, "truncate-mid-pass-%d" % k, ["a"] * (n1 + n2), hist, True, truncate=True, cap=cap, nowatch=(i % 3 != 2)))
+        k += 1
+    # the watched name is a symbolic link (k8s layout); the file behind it is rotated by rename and created anew, more than once in a
+    # run, every line acknowledged before the next rotation; then kill and restart
+    for i in range(6 if thorough else 2):
+        rounds = ctx.rng.randint(3, 4)      # a file that was never read in the first run is still there after ONE rotation; after two it is out of reach
+        per = ctx.rng.randint(1, 2)
+        hist = []
+        j = 0
+        for rr in range(rounds):
+            if rr > 0:
+                hist += [["rotate_behind", ctx.rng.choice([250, 400])]]
+            for _ in range(per):
+                j += 1
+                hist += [["append", j], ["act", j], ["deliver", j], ["commit", j]]
+        hist += [["save", 0], ["kill", 0], ["restart", 0], ["open", 0]]
+        scs.append(scen(k, "symlink-rotation-%d" % k, ["a"] * j, hist, True, symlink=True))
         k += 1
     # graceful stop right after the last observed commit (async persistence: the stop's own save is what puts it on disk),
     # restart: nothing is lost, and the offsets file held every observed commit (CleanStopSavesAll, reported as drift)
